@@ -1,1 +1,507 @@
-//! C16: splitting and merging owned slices (see `run_split_history`).
+//! C16: splitting and merging owned slices.  A population of parts (boxed slices, fixed vectors,
+//! vectors) that all descend from one allocation is split, merged and mutated; after every step
+//! every part must hold exactly its modelled elements.
+
+use super::hist::CollParams;
+use super::vecs::VCtx;
+use crate::arena::{PanicKind, classify, guarded};
+use crate::monalloc::{FailPlan, MonHandle, MonState, Policy, Shared, set_current};
+use crate::out::Report;
+use crate::rng::{Rng, hash_str, mix};
+use crate::tr::{self, Elem};
+use bump_scope::settings::BumpAllocatorSettings;
+use bump_scope::{BaseAllocator, Bump, BumpBox, BumpScope, BumpVec, FixedBumpVec};
+use std::cell::RefCell;
+use std::collections::BTreeSet;
+use std::ops::Bound;
+use std::rc::Rc;
+
+enum Part<'b, E, A, S>
+where
+    A: MonHandle + BaseAllocator<S::GuaranteedAllocated>,
+    S: BumpAllocatorSettings,
+{
+    Boxed(BumpBox<'b, [E]>),
+    Fixed(FixedBumpVec<'b, E>),
+    Vec(BumpVec<E, &'b BumpScope<'b, A, S>>),
+}
+
+impl<'b, E: Elem, A, S> Part<'b, E, A, S>
+where
+    A: MonHandle + BaseAllocator<S::GuaranteedAllocated>,
+    S: BumpAllocatorSettings,
+{
+    fn slice(&self) -> &[E] {
+        match self {
+            Part::Boxed(b) => b,
+            Part::Fixed(f) => f,
+            Part::Vec(v) => v,
+        }
+    }
+    fn cap(&self) -> usize {
+        match self {
+            Part::Boxed(b) => b.len(),
+            Part::Fixed(f) => f.capacity(),
+            Part::Vec(v) => v.capacity(),
+        }
+    }
+    fn kind(&self) -> &'static str {
+        match self {
+            Part::Boxed(_) => "BumpBox<[T]>",
+            Part::Fixed(_) => "FixedBumpVec",
+            Part::Vec(_) => "BumpVec",
+        }
+    }
+    fn addr(&self) -> usize {
+        self.slice().as_ptr() as usize
+    }
+}
+
+fn gen_range(rng: &mut Rng, len: usize) -> (Bound<usize>, Bound<usize>) {
+    // all (start, end) pairs incl. empty, full, prefix, suffix, interior and a few invalid ones
+    let a = rng.range(0, len + 1);
+    let b = rng.range(0, len + 1);
+    let (a, b) = if a > b && rng.chance(9, 10) { (b, a) } else { (a, b) };
+    let lo = if a == 0 && rng.bool() { Bound::Unbounded } else { Bound::Included(a) };
+    let hi = if b == len && rng.bool() { Bound::Unbounded } else { Bound::Excluded(b) };
+    (lo, hi)
+}
+
+pub fn run_split_history<A, S, E>(rep: &mut Report, p: &CollParams, hist: u64, seed: u64, _fail: FailPlan)
+where
+    A: MonHandle + BaseAllocator<S::GuaranteedAllocated>,
+    S: BumpAllocatorSettings,
+    E: Elem,
+{
+    let rng = Rng::new(seed);
+    let cfg = format!("split<{}>/{}{}/{}", E::NAME, if S::UP { "U" } else { "D" }, S::MIN_ALIGN, A::NAME);
+    let mon: Shared = Rc::new(RefCell::new(MonState::new(if p.thick { Policy::thick() } else { Policy::thin() }, FailPlan::default(), seed)));
+    set_current(Some(mon.clone()));
+    tr::reset_ledger();
+    rep.histories += 1;
+    let mut ctx = VCtx { rng, rep, cfg, hist, op: 0, desc: String::new(), mon: Some(mon.clone()), viols: 0, trace: Vec::new(), leaked: BTreeSet::new(), leaked_z: 0, injected: 0, hit: 0 };
+    if let Err(pl) = guarded(|| body::<A, S, E>(&mut ctx, p)) {
+        match classify(&pl) {
+            PanicKind::Msg(m) => ctx.viol("C16", format!("unexpected_panic:{}", crate::arena::msg_sig(&m)), format!("{} :: {m}", ctx.desc)),
+            k => ctx.viol("C16", format!("unexpected_panic:{k:?}"), ctx.desc.clone()),
+        }
+    }
+    let lv = tr::ledger_view();
+    if ctx.viols == 0 {
+        if E::TRACKED && !E::ZST && !lv.live_ids.is_empty() {
+            ctx.viol("C06", "value_never_dropped:split".into(), format!("ids {:?}", &lv.live_ids[..lv.live_ids.len().min(8)]));
+        }
+        if E::TRACKED && E::ZST && lv.z_live != 0 {
+            ctx.viol("C06", "zst_value_count_at_teardown:split".into(), format!("{}", lv.z_live));
+        }
+        if !lv.double_drops.is_empty() {
+            ctx.viol("C06", "value_dropped_twice:split".into(), format!("{:?}", lv.double_drops));
+        }
+        let mut m = mon.borrow_mut();
+        m.check_quiescent();
+        let probs: Vec<_> = m.problems.drain(..).collect();
+        let leaked = m.live_count;
+        drop(m);
+        for (sig, d) in probs {
+            ctx.viol("C05", sig, d);
+        }
+        if leaked != 0 {
+            ctx.viol("C05", "chunk_never_released".into(), format!("{leaked} grants"));
+        }
+    }
+    set_current(None);
+    let h = mix(&[hash_str(&ctx.cfg), hash_str(&ctx.trace.join(";"))]);
+    if ctx.hit != 0 {
+        ctx.rep.nontrivial.insert(h);
+    }
+    ctx.rep.states.insert(mix(&[hash_str(&ctx.cfg), ctx.hit]));
+    if ctx.rep.samples.len() < 2 && ctx.trace.len() > 4 {
+        let s = format!("[{} hist {hist} seed {seed}] {}", ctx.cfg, ctx.trace.iter().take(24).cloned().collect::<Vec<_>>().join(" ; "));
+        ctx.rep.samples.push(s);
+    }
+}
+
+fn vals<E: Elem>(s: &[E]) -> Vec<u32> {
+    s.iter().map(|e| e.val()).collect()
+}
+
+/// every part holds exactly its model; parts do not overlap in memory; no id is owned twice
+fn check_all<'b, E: Elem, A, S>(parts: &[(Part<'b, E, A, S>, Vec<u32>)], ctx: &mut VCtx, touched: Option<usize>)
+where
+    A: MonHandle + BaseAllocator<S::GuaranteedAllocated>,
+    S: BumpAllocatorSettings,
+{
+    let mut ids: Vec<u32> = Vec::new();
+    let mut iv: Vec<(usize, usize, usize)> = Vec::new();
+    for (i, (part, model)) in parts.iter().enumerate() {
+        let now = vals(part.slice());
+        if now != *model {
+            let what = if Some(i) == touched { "part_contents_differ_from_model" } else { "sibling_part_changed" };
+            ctx.viol("C16", format!("{what}:{}", part.kind()), format!("part {i} real {:?} model {:?} after {}", &now[..now.len().min(16)], &model[..model.len().min(16)], ctx.desc));
+        }
+        if part.cap() < part.slice().len() {
+            ctx.viol("C16", format!("capacity_below_len:{}", part.kind()), format!("{} < {}", part.cap(), part.slice().len()));
+        }
+        ids.extend(part.slice().iter().filter_map(|e| e.id()));
+        if !E::ZST && part.cap() > 0 {
+            iv.push((part.addr(), part.addr() + part.cap() * size_of::<E>(), i));
+        }
+    }
+    ids.sort_unstable();
+    if ids.windows(2).any(|w| w[0] == w[1]) {
+        ctx.viol("C16", "element_owned_by_two_parts".into(), format!("{ids:?}"));
+    }
+    iv.sort_unstable();
+    for w in iv.windows(2) {
+        if w[1].0 < w[0].1 {
+            ctx.viol("C16", "parts_overlap_in_memory".into(), format!("part {} {:#x}..{:#x} and part {} {:#x}..{:#x}", w[0].2, w[0].0, w[0].1, w[1].2, w[1].0, w[1].1));
+        }
+    }
+    let lv = tr::ledger_view();
+    if !lv.double_drops.is_empty() {
+        ctx.viol("C06", "value_dropped_twice:split".into(), format!("{:?}", lv.double_drops));
+    }
+    if !lv.use_after_drop.is_empty() {
+        ctx.viol("C06", "value_used_after_drop:split".into(), format!("{:?}", lv.use_after_drop));
+    }
+    tr::clear_incidents();
+    if E::TRACKED && !E::ZST {
+        let lost: Vec<u32> = lv.live_ids.iter().copied().filter(|i| ids.binary_search(i).is_err()).collect();
+        if !lost.is_empty() {
+            ctx.viol("C16", "element_lost_by_split".into(), format!("ids {lost:?} are in no part after {}", ctx.desc));
+        }
+    } else if E::TRACKED {
+        let total: usize = parts.iter().map(|p| p.0.slice().len()).sum();
+        if lv.z_live != total as i64 {
+            ctx.viol("C16", "zst_element_count_changed_by_split".into(), format!("live {} in parts {total} after {}", lv.z_live, ctx.desc));
+        }
+    }
+}
+
+fn body<A, S, E>(ctx: &mut VCtx, p: &CollParams)
+where
+    A: MonHandle + BaseAllocator<S::GuaranteedAllocated>,
+    S: BumpAllocatorSettings,
+    E: Elem,
+{
+    let mon = ctx.mon.clone().unwrap();
+    ctx.begin("init".into());
+    let Ok(bump) = Bump::<A, S>::try_new_in(A::with(&mon)) else { return };
+    let s: &BumpScope<A, S> = bump.as_scope();
+    let n = ctx.rng.range(0, 24);
+    let init: Vec<u32> = (0..n).map(|_| ctx.rng.below(E::MODULUS as usize) as u32 % E::MODULUS).collect();
+    let mut parts: Vec<(Part<E, A, S>, Vec<u32>)> = Vec::new();
+    // the ancestor: a vector with spare capacity, a fixed vector or a boxed slice
+    let spare = ctx.rng.range(0, 10);
+    match ctx.rng.below(3) {
+        0 => {
+            ctx.begin(format!("ancestor: BumpBox<[{}]> len {n}", E::NAME));
+            let mut i = 0;
+            let b = s.alloc_slice_fill_with(n, || {
+                i += 1;
+                E::make(init[i - 1])
+            });
+            parts.push((Part::Boxed(b), init.clone()));
+        }
+        1 => {
+            ctx.begin(format!("ancestor: FixedBumpVec<{}> len {n} cap {}", E::NAME, n + spare));
+            let mut f = FixedBumpVec::with_capacity_in(n + spare, s);
+            for x in &init {
+                f.push(E::make(*x));
+            }
+            parts.push((Part::Fixed(f), init.clone()));
+        }
+        _ => {
+            ctx.begin(format!("ancestor: BumpVec<{}> len {n} cap >= {}", E::NAME, n + spare));
+            let mut v = BumpVec::with_capacity_in(n + spare, s);
+            for x in &init {
+                v.push(E::make(*x));
+            }
+            parts.push((Part::Vec(v), init.clone()));
+        }
+    }
+    check_all(&parts, ctx, None);
+    for _ in 0..p.ops.min(40) {
+        if ctx.viols > 3 || parts.is_empty() {
+            break;
+        }
+        let i = ctx.rng.below(parts.len());
+        let len = parts[i].1.len();
+        let op = ctx.rng.weighted(&[30, 8, 6, 6, 8, 12, 20, 6]);
+        match op {
+            0 => {
+                // split_off(range) on any kind
+                let r = gen_range(&mut ctx.rng, len);
+                ctx.begin(format!("part {i} ({}) split_off {r:?}", parts[i].0.kind()));
+                let cap_before = parts[i].0.cap();
+                let expect = guarded(|| std::slice::range(r, ..len));
+                let (part, model) = &mut parts[i];
+                let res: Result<Option<Part<E, A, S>>, _> = guarded(|| match part {
+                    Part::Boxed(b) => Some(Part::Boxed(b.split_off(r))),
+                    Part::Fixed(f) => Some(Part::Fixed(f.split_off(r))),
+                    Part::Vec(v) => Some(Part::Vec(v.split_off(r))),
+                });
+                match (res, expect) {
+                    (Ok(Some(newp)), Ok(rr)) => {
+                        let removed: Vec<u32> = model.drain(rr.clone()).collect();
+                        // capacities add up (sized element types)
+                        if !E::ZST && !matches!(newp, Part::Boxed(_)) {
+                            let sum = parts[i].0.cap() + newp.cap();
+                            if sum != cap_before {
+                                ctx.viol("C16", format!("capacities_do_not_add_up:{}", newp.kind()), format!("{} + {} != {cap_before} after {}", parts[i].0.cap(), newp.cap(), ctx.desc));
+                            }
+                        }
+                        parts.push((newp, removed));
+                        let tag = if rr.is_empty() { "split" } else { "split" };
+                        ctx.ev(tag);
+                        ctx.rep.count(if rr.start == rr.end { "split_empty" } else if rr.start == 0 && rr.end == len { "split_full" } else if rr.start == 0 { "split_prefix" } else if rr.end == len { "split_suffix" } else { "split_interior" });
+                    }
+                    (Ok(_), Err(_)) => ctx.viol("C16", "split_off_accepted_invalid_range".into(), format!("{r:?} len {len}")),
+                    (Err(pl), Ok(_)) => ctx.viol("C16", "split_off_panicked_on_valid_range".into(), format!("{r:?} len {len}: {:?}", classify(&pl))),
+                    (Err(_), Err(_)) => ctx.rep.count("split_invalid_range_rejected"),
+                    (Ok(None), Ok(_)) => {}
+                }
+            }
+            1 | 2 | 3 | 4 => {
+                // by-value splits of a boxed slice
+                if !matches!(parts[i].0, Part::Boxed(_)) {
+                    continue;
+                }
+                let (part, model) = parts.swap_remove(i);
+                let Part::Boxed(b) = part else { unreachable!() };
+                match op {
+                    1 => {
+                        let at = ctx.rng.range(0, len + 1);
+                        ctx.begin(format!("split_at {at} (len {len})"));
+                        match guarded(|| b.split_at(at)) {
+                            Ok((l, r)) => {
+                                if at > len {
+                                    ctx.viol("C16", "split_at_accepted_out_of_range".into(), format!("{at} > {len}"));
+                                }
+                                let at = at.min(len);
+                                parts.push((Part::Boxed(l), model[..at].to_vec()));
+                                parts.push((Part::Boxed(r), model[at..].to_vec()));
+                                ctx.ev("split");
+                            }
+                            Err(_) => {
+                                if at <= len {
+                                    ctx.viol("C16", "split_at_panicked_in_range".into(), format!("{at} <= {len}"));
+                                }
+                            }
+                        }
+                    }
+                    2 => {
+                        let last = ctx.rng.bool();
+                        ctx.begin(format!("split_{} (len {len})", if last { "last" } else { "first" }));
+                        let r = if last { b.split_last().map(|(x, rest)| (x, rest)) } else { b.split_first() };
+                        match r {
+                            Some((one, rest)) => {
+                                let (xv, restm) = if last { (model[len - 1], model[..len - 1].to_vec()) } else { (model[0], model[1..].to_vec()) };
+                                if one.val() != xv {
+                                    ctx.viol("C16", "split_first_last_wrong_element".into(), format!("{} vs {xv}", one.val()));
+                                }
+                                parts.push((Part::Boxed(one.into_boxed_slice()), vec![xv]));
+                                parts.push((Part::Boxed(rest), restm));
+                                ctx.ev("split");
+                            }
+                            None => {
+                                if len != 0 {
+                                    ctx.viol("C16", "split_first_last_none_on_nonempty".into(), format!("len {len}"));
+                                }
+                            }
+                        }
+                    }
+                    3 => {
+                        let last = ctx.rng.bool();
+                        ctx.begin(format!("split_off_{} (len {len})", if last { "last" } else { "first" }));
+                        let mut b = b;
+                        let r = if last { b.split_off_last() } else { b.split_off_first() };
+                        let mut m = model;
+                        match r {
+                            Some(one) => {
+                                let xv = if last { m.pop().unwrap() } else { m.remove(0) };
+                                if one.val() != xv {
+                                    ctx.viol("C16", "split_off_first_last_wrong_element".into(), format!("{} vs {xv}", one.val()));
+                                }
+                                parts.push((Part::Boxed(one.into_boxed_slice()), vec![xv]));
+                                ctx.ev("split");
+                            }
+                            None => {
+                                if len != 0 {
+                                    ctx.viol("C16", "split_off_first_last_none_on_nonempty".into(), format!("len {len}"));
+                                }
+                            }
+                        }
+                        parts.push((Part::Boxed(b), m));
+                    }
+                    _ => {
+                        let k = ctx.rng.range(2, 3) as u32;
+                        ctx.begin(format!("partition val%{k}==0 (len {len})"));
+                        let (yes, no) = b.partition(|e| e.val() % k == 0);
+                        let (mut my, mut mn): (Vec<u32>, Vec<u32>) = model.iter().partition(|x| **x % k == 0);
+                        let (mut ry, mut rn) = (vals(&yes), vals(&no));
+                        if ry.iter().any(|x| x % k != 0) || rn.iter().any(|x| x % k == 0) {
+                            ctx.viol("C16", "partition_misplaced_element".into(), format!("{ry:?} / {rn:?}"));
+                        }
+                        // order within the halves is not documented: compare as multisets, then adopt the real order
+                        let (oy, on) = (ry.clone(), rn.clone());
+                        ry.sort_unstable();
+                        rn.sort_unstable();
+                        my.sort_unstable();
+                        mn.sort_unstable();
+                        if ry != my || rn != mn {
+                            ctx.viol("C16", "partition_lost_or_duplicated_elements".into(), format!("{ry:?}/{rn:?} vs {my:?}/{mn:?}"));
+                        }
+                        parts.push((Part::Boxed(yes), oy));
+                        parts.push((Part::Boxed(no), on));
+                        ctx.ev("split");
+                    }
+                }
+            }
+            5 => {
+                // merge two boxed parts: adjacent ones restore the whole, others must be rejected
+                let boxed: Vec<usize> = (0..parts.len()).filter(|&j| matches!(parts[j].0, Part::Boxed(_))).collect();
+                if boxed.len() < 2 {
+                    continue;
+                }
+                let a = boxed[ctx.rng.below(boxed.len())];
+                // prefer a partner that is adjacent in memory
+                let a_end = parts[a].0.addr() + parts[a].0.slice().len() * size_of::<E>();
+                let adj = boxed.iter().copied().find(|&j| j != a && parts[j].0.addr() == a_end && !E::ZST);
+                let b = match adj {
+                    Some(j) if ctx.rng.chance(3, 4) => j,
+                    _ => {
+                        let j = boxed[ctx.rng.below(boxed.len())];
+                        if j == a {
+                            continue;
+                        }
+                        j
+                    }
+                };
+                let contiguous = E::ZST || parts[b].0.addr() == a_end;
+                ctx.begin(format!("merge part {a} (len {}) with part {b} (len {}) - {}", parts[a].1.len(), parts[b].1.len(), if contiguous { "contiguous" } else { "not contiguous" }));
+                let (hi, lo) = if a > b { (a, b) } else { (b, a) };
+                let (ph, mh) = parts.swap_remove(hi);
+                let (pl, ml) = parts.swap_remove(lo);
+                let ((pa, ma), (pb, mb)) = if a > b { ((ph, mh), (pl, ml)) } else { ((pl, ml), (ph, mh)) };
+                let (Part::Boxed(ba), Part::Boxed(bb)) = (pa, pb) else { unreachable!() };
+                match guarded(|| ba.merge(bb)) {
+                    Ok(m) => {
+                        if !contiguous {
+                            ctx.viol("C16", "merge_accepted_non_adjacent_parts".into(), ctx.desc.clone());
+                        }
+                        let mut mm = ma;
+                        mm.extend(mb);
+                        parts.push((Part::Boxed(m), mm));
+                        ctx.ev("merge_ok");
+                    }
+                    Err(_) => {
+                        // both operands were dropped by the unwinding
+                        if contiguous {
+                            ctx.viol("C16", "merge_rejected_adjacent_parts".into(), ctx.desc.clone());
+                        }
+                        ctx.ev("merge_rejected");
+                    }
+                }
+            }
+            6 => {
+                // follow-up on one part: the others must not notice
+                let (part, model) = &mut parts[i];
+                let x = ctx.rng.below(E::MODULUS as usize) as u32 % E::MODULUS;
+                match part {
+                    Part::Vec(v) => match ctx.rng.below(5) {
+                        0 | 1 => {
+                            let k = ctx.rng.range(1, 12);
+                            ctx.begin(format!("part {i} (BumpVec) push x{k}"));
+                            for _ in 0..k {
+                                v.push(E::make(x));
+                                model.push(x);
+                            }
+                        }
+                        2 => {
+                            ctx.begin(format!("part {i} (BumpVec) shrink_to_fit"));
+                            v.shrink_to_fit();
+                        }
+                        3 => {
+                            ctx.begin(format!("part {i} (BumpVec) pop"));
+                            if v.pop().is_some() {
+                                model.pop();
+                            }
+                        }
+                        _ => {
+                            ctx.begin(format!("part {i} (BumpVec) reserve 30"));
+                            v.reserve(30);
+                        }
+                    },
+                    Part::Fixed(f) => {
+                        if ctx.rng.bool() && !f.is_full() {
+                            ctx.begin(format!("part {i} (FixedBumpVec) push"));
+                            f.push(E::make(x));
+                            model.push(x);
+                        } else {
+                            ctx.begin(format!("part {i} (FixedBumpVec) truncate"));
+                            let k = ctx.rng.range(0, len);
+                            f.truncate(k);
+                            model.truncate(k);
+                        }
+                    }
+                    Part::Boxed(b) => {
+                        if ctx.rng.bool() {
+                            ctx.begin(format!("part {i} (BumpBox) pop"));
+                            if b.pop().is_some() {
+                                model.pop();
+                            }
+                        } else if len > 0 {
+                            let k = ctx.rng.below(len);
+                            ctx.begin(format!("part {i} (BumpBox) remove {k}"));
+                            b.remove(k);
+                            model.remove(k);
+                        }
+                    }
+                }
+            }
+            _ => {
+                // a part leaves: dropped, deallocated through the arena, or converted
+                let (part, model) = parts.swap_remove(i);
+                match part {
+                    Part::Vec(v) => {
+                        if ctx.rng.bool() {
+                            ctx.begin(format!("part {i} (BumpVec) dropped (deallocates its buffer)"));
+                            drop(v);
+                        } else {
+                            ctx.begin(format!("part {i} (BumpVec) into_boxed_slice"));
+                            parts.push((Part::Boxed(v.into_boxed_slice()), model));
+                        }
+                    }
+                    Part::Fixed(f) => {
+                        if ctx.rng.bool() {
+                            ctx.begin(format!("part {i} (FixedBumpVec) into_vec"));
+                            parts.push((Part::Vec(f.into_vec(s)), model));
+                        } else {
+                            ctx.begin(format!("part {i} (FixedBumpVec) into_boxed_slice"));
+                            parts.push((Part::Boxed(f.into_boxed_slice()), model));
+                        }
+                    }
+                    Part::Boxed(b) => match ctx.rng.below(3) {
+                        0 => {
+                            ctx.begin(format!("part {i} (BumpBox) dealloc through the arena"));
+                            s.dealloc(b);
+                        }
+                        1 => {
+                            ctx.begin(format!("part {i} (BumpBox) -> FixedBumpVec::from_init -> BumpVec::from_parts"));
+                            parts.push((Part::Vec(BumpVec::from_parts(FixedBumpVec::from_init(b), s)), model));
+                        }
+                        _ => {
+                            ctx.begin(format!("part {i} (BumpBox) dropped"));
+                            drop(b);
+                        }
+                    },
+                }
+            }
+        }
+        check_all(&parts, ctx, None);
+    }
+    ctx.begin("drop all parts".into());
+    drop(parts);
+    drop(bump);
+}
